@@ -16,6 +16,7 @@ type Clause struct {
 	Src   string
 	E     Expr
 	Props []string // properties this clause is reported under (empty: every property of the unit)
+	Uses  []string // preludes a box fact needs
 	Line  string   // file:line of the clause
 }
 
@@ -84,6 +85,8 @@ type ContractSet struct {
 	Asserts     []AssertLine // raw SMT assertions placed after all declarations
 	Lemmas      []*Lemma
 	Files       []string
+	BoxFacts    map[string][]Clause // Go type -> facts assumed when a value of that type is boxed into an interface (vars: box, val);
+	                                // each restates the verified contract of the type's method through the interface contract's naming function
 	GlobalVals  map[string]string // "pkg/path.Name" -> SMT term: assumed value of a package-level variable of a dependency
 }
 
@@ -105,7 +108,7 @@ func splitNames(s string) []string {
 }
 
 func NewContractSet() *ContractSet {
-	return &ContractSet{Funcs: map[string]*FuncContract{}, ModelFields: map[string]string{}, ModelFieldUses: map[string][]string{}, WorldFields: map[string]bool{}, GlobalVals: map[string]string{}}
+	return &ContractSet{Funcs: map[string]*FuncContract{}, ModelFields: map[string]string{}, ModelFieldUses: map[string][]string{}, WorldFields: map[string]bool{}, BoxFacts: map[string][]Clause{}, GlobalVals: map[string]string{}}
 }
 
 // qualify turns a short function name used in a /repo contract file into the SSA name:
@@ -185,6 +188,17 @@ func (cs *ContractSet) LoadLines(path string, lines []string, lineNos []int, pkg
 				return fail(fmt.Errorf("usetype outside a lemma"))
 			}
 			curLemma.UseTypes = append(curLemma.UseTypes, rest)
+		case kw == "boxfact": // boxfact <Type> <expr over box, val>
+			tn, ex, _ := strings.Cut(rest, " ")
+			pe, err := parse(strings.TrimSpace(ex))
+			if err != nil {
+				return fail(err)
+			}
+			full := tn
+			if pkg != "" && !strings.Contains(tn, "/") {
+				full = pkg + "." + tn
+			}
+			cs.BoxFacts[full] = append(cs.BoxFacts[full], Clause{Src: ex, E: pe, Line: where, Uses: append([]string{}, filePreludes...)})
 		case kw == "globalvalue": // globalvalue pkg/path.Name <smt term>
 			name, term, _ := strings.Cut(rest, " ")
 			cs.GlobalVals[name] = strings.TrimSpace(term)
